@@ -28,6 +28,7 @@ w('')
 w('verus! {')
 w('')
 w('//@@ gsubst `de::Error::custom(__E1)` => `err_custom()` rule=R9')
+w('//@@ gsubst `.starts_with(` => `.starts_with_s(` rule=R16')
 w('//@@ trusted written by tools/mkerrcond.py from a table: the error-condition symbols are taken from the AMQP 1.0 specification text, not from the code; Symbol is a stand-in holding its text (Symbol::from(&str) / as_str keep it); Symbol::deserialize (serde_amqp: units READERS / DEENTRY) is a stand-in that yields ANY symbol or fails; R39 for the matches over string literals')
 w('pub struct Symbol { pub text: Ghost<Seq<char>> }')
 w('impl Symbol {')
@@ -42,6 +43,9 @@ w('}')
 w('/// the deserializer positioned at a symbol: whether a symbol can be read there, and its text')
 w('pub struct DeS { pub ok: Ghost<bool>, pub text: Ghost<Seq<char>> }')
 w('pub struct ErrS { pub k: u8 }')
+w('/// str::starts_with(&str) (this vstd has no specification for it): present so that a change introducing a prefix test is decided')
+w('pub trait StartsWithS { fn starts_with_s(&self, p: &str) -> (r: bool) ensures r == (p@.len() <= self.chars().len() && self.chars().subrange(0, p@.len() as int) == p@); spec fn chars(&self) -> Seq<char>; }')
+w('impl StartsWithS for str { open spec fn chars(&self) -> Seq<char> { self@ } #[verifier::external_body] fn starts_with_s(&self, p: &str) -> (r: bool) { unimplemented!() } }')
 w('#[verifier::external_body]')
 w('pub fn err_custom() -> (r: ErrS) { unimplemented!() }')
 w('')
